@@ -765,6 +765,50 @@ def textDoc : Doc → Except TextErr Doc
     let body ← textBody f.body
     pure (.feat { f with tags := tags, body := body })
 
+/-! ### whether an ingested collection is sorted by key (`newCollectionFeatureFromYAML`) -/
+
+/-- a finite float or an infinity as m · 2^e (`none` for NaN) -/
+def fltVal (b : String) : Option (Int × Int) :=
+  if b == "nan" then none else
+  let n : Nat := b.toList.foldl (fun acc c => acc * 16 + hexVal c) 0
+  let neg : Bool := n / 2 ^ 63 == 1
+  let ex : Nat := (n / 2 ^ 52) % 2048
+  let frac : Nat := n % 2 ^ 52
+  let sign : Int := if neg then -1 else 1
+  if ex == 2047 then (if frac == 0 then some (sign, 5000) else none)
+  else if ex == 0 then some (sign * Int.ofNat frac, -1074)
+  else some (sign * Int.ofNat (2 ^ 52 + frac), Int.ofNat ex - 1075)
+
+/-- m1 · 2^e1 < m2 · 2^e2 -/
+def scaledLt (a b : Int × Int) : Bool :=
+  let e := min a.2 b.2
+  a.1 * 2 ^ (a.2 - e).toNat < b.1 * 2 ^ (b.2 - e).toNat
+
+/-- `b6.Less` on collection literals; `none` = the error "can't compare": an int compares with ints only,
+a float with floats and ints, a string with strings, a feature id with feature ids, nothing else at all -/
+def atomLess (a b : Atom) : Option Bool :=
+  match a, b with
+  | .int x, .int y => some (x < y)
+  | .flt x, .flt y => match fltVal x, fltVal y with
+    | some u, some v => some (scaledLt u v)
+    | _, _ => some false
+  | .flt x, .int y => match fltVal x with
+    | some u => some (scaledLt u (y, 0))
+    | none => some false
+  | .str x, .str y => some (x < y)
+  | .fid t ns v, .fid t' ns' v' =>
+    some (if t == t' then (if ns == ns' then v < v' else ns < ns') else t < t')
+  | _, _ => none
+
+/-- the `sorted` flag of an ingested collection (after `fixes/C18-collection-sorted-mixed-keys.patch`): no
+key is less than its predecessor, and neighbours compare in either order -/
+def keysSorted : List Atom → Bool
+  | a :: b :: r =>
+    (match atomLess b a, atomLess a b with
+      | some false, some _ => true
+      | _, _ => false) && keysSorted (b :: r)
+  | _ => true
+
 /-! ### import (`ingestedYAML.Apply`) -/
 
 /-- one document: `AddFeature` (its answer is `acc`), then `AddTag` for every added tag, `RemoveTag` for
